@@ -373,7 +373,15 @@ TEXT_CORE = ["text_scaled<SI<i8,-4>>", "text_scaled<SI<i32,-30>>", "text_scaled<
              "text_integer<cnl::elastic_integer<20>>",
              # wide_integer beyond 128 bits (signed only: cnl::to_chars does not compile for unsigned multi-limb types)
              "text_wide<cnl::wide_integer<200>>", "text_wide<cnl::wide_integer<256, std::int32_t>>",
-             "text_wide<cnl::wide_integer<130, std::int8_t>>"]
+             "text_wide<cnl::wide_integer<130, std::int8_t>>",
+             # integers whose arithmetic is not the built-in one (the digit loop divides and multiplies)
+             "text_integer<cnl::rounding_integer<i32, cnl::nearest_rounding_tag>>",
+             "text_integer<cnl::rounding_integer<i16, cnl::tie_to_pos_inf_rounding_tag>>",
+             "text_integer<cnl::rounding_integer<i64, cnl::neg_inf_rounding_tag>>",
+             "text_integer<cnl::overflow_integer<i32, cnl::saturated_overflow_tag>>",
+             "text_integer<cnl::static_integer<20>>",
+             # signed types whose static capacity is 2 or 3 characters
+             "text_integer<cnl::elastic_integer<3>>", "text_integer<cnl::elastic_integer<1>>", "text_integer<cnl::elastic_integer<6>>"]
 
 
 def text_jobs(tier):
@@ -409,7 +417,7 @@ def text_attr(kind, op, tag, diag):
     if diag is None:
         return ["C13", "C14"]
     if diag in ("ub", "timeout", "unreachable", "wrote_before_first", "bad_shape", "not_exactly_first_to_p",
-                "static_capacity_too_small"):
+                "static_capacity_too_small", "refused_though_it_fits"):
         return ["C13"]
     return ["C14"]
 
